@@ -213,7 +213,11 @@ func init() {
 		if pv, ok := args[0].(*value); ok && pv == nil {
 			return "<nil>"
 		}
-		return decimalString(fr, getBig(args[0]))
+		a := getBig(args[0])
+		if a.isConst() {
+			return a.c.String()
+		}
+		return &rope{parts: []value{lazyDec{fr: fr, big: a}}}
 	})
 	B("Text", func(fr *frame, args []value) value {
 		a := mustConcBig(getBig(args[0]), "Text()")
